@@ -14,7 +14,7 @@ def make_plan(prop, rng, idx, tier, variant="asan"):
             plan = hist.gen_sole_survivor(rng, "C12")
             plan["knobs"]["scon_fatal"] = 0
             return plan, "sole-survivor"
-        if idx % 25 == 9:
+        if idx % 25 in (9, 21):
             plan = hist.gen_twin_walks(rng, "C12")
             plan["knobs"]["scon_fatal"] = 0
             return plan, "twin-walks"
@@ -61,7 +61,12 @@ def make_plan(prop, rng, idx, tier, variant="asan"):
             plan["knobs"]["watchdog_s"] = 120
             return plan, "history"
         if m < 4:
-            return hist.gen_history(rng, "C13", faults=False), "history"
+            plan = hist.gen_history(rng, "C13", faults=False)
+            if m == 1 and variant == "asan":
+                # also on the -O2 build: what a step yields must not differ (divergence oracle)
+                plan["knobs"]["differential"] = 1
+                return plan, "history+divergence"
+            return plan, "history"
         if m < 7:
             return hist.gen_history(rng, "C13", sweep=True), "sweep"
         if m < 9:
